@@ -4,3 +4,4 @@ import AtomicaModel.Engine
 import AtomicaModel.EngineIO
 import AtomicaModel.Series
 import AtomicaModel.Coverage
+import AtomicaModel.Covout
